@@ -1,5 +1,5 @@
 (** C19 — Task mutators, their recorded operations and the task model agree. *)
-From TC Require Import Model.Task Model.TaskMut Proofs.TaskMutP Proofs.TagsP.
+From TC Require Import Model.Task Model.TaskMut Proofs.TaskMutP Proofs.TagsP Proofs.UdaP.
 From Coq Require Import Strings.String.
 
 (** For any sequence of mutator calls (refused ones change nothing) on a task
@@ -107,6 +107,39 @@ Theorem C19_remove_annotation_gone : forall nowstr s ts s',
   ts_map s' !! (s2l "annotation_" ++ ts) = None.
 Proof. exact remove_annotation_gone. Qed.
 
+(** User-defined attributes read back as written: a set attribute is listed by
+    [get_user_defined_attributes] with exactly the value written, a removed one
+    is not listed, every other attribute is untouched (the refreshed "modified"
+    is not an attribute), a reserved name is never listed, and a refused call
+    is a no-op inside any sequence of calls. *)
+Theorem C19_set_uda_listed : forall nowstr s k v s',
+  run_mutator nowstr s (MSetUda k v) = Some s' -> (k, v) ∈ udas (ts_map s').
+Proof. exact set_uda_listed. Qed.
+
+Theorem C19_set_uda_only_value : forall nowstr s k v w s',
+  run_mutator nowstr s (MSetUda k v) = Some s' -> (k, w) ∈ udas (ts_map s') -> w = v.
+Proof. exact set_uda_only_value. Qed.
+
+Theorem C19_remove_uda_gone : forall nowstr s k s' w,
+  run_mutator nowstr s (MRemoveUda k) = Some s' -> (k, w) ∉ udas (ts_map s').
+Proof. exact remove_uda_gone. Qed.
+
+Theorem C19_other_udas_untouched : forall nowstr s k v s' (set : bool) q w,
+  run_mutator nowstr s (if set then MSetUda k v else MRemoveUda k) = Some s' ->
+  q <> k ->
+  ((q, w) ∈ udas (ts_map s') <-> (q, w) ∈ udas (ts_map s)).
+Proof. exact other_udas_untouched. Qed.
+
+Theorem C19_reserved_never_listed : forall (m : tmap) k v,
+  is_known_key k = true -> (k, v) ∉ udas m.
+Proof. exact reserved_never_listed. Qed.
+
+Theorem C19_refused_uda_is_noop : forall nowstr s k v l,
+  is_known_key k = true ->
+  run_mutators nowstr s (MSetUda k v :: l) = run_mutators nowstr s l /\
+  run_mutators nowstr s (MRemoveUda k :: l) = run_mutators nowstr s l.
+Proof. exact refused_uda_is_noop. Qed.
+
 Print Assumptions C19_held_equals_stored.
 Print Assumptions C19_mutator_keeps_agreement.
 Print Assumptions C19_modified_once_first.
@@ -127,3 +160,9 @@ Print Assumptions C19_add_dependency_has.
 Print Assumptions C19_remove_dependency_gone.
 Print Assumptions C19_add_annotation_stored.
 Print Assumptions C19_remove_annotation_gone.
+Print Assumptions C19_set_uda_listed.
+Print Assumptions C19_set_uda_only_value.
+Print Assumptions C19_remove_uda_gone.
+Print Assumptions C19_other_udas_untouched.
+Print Assumptions C19_reserved_never_listed.
+Print Assumptions C19_refused_uda_is_noop.
